@@ -113,6 +113,7 @@ CMR_ERROR CMRregularityDecomposeThreeSum(
       CMRdbgMsg(10, "Pivoting produced a non-ternary entry. Computed 2x2 violator.\n");
 
       /* Tested in ThreesumPivotHighRank unittest. */
+      CMR_CALL( CMRregularityTaskFree(cmr, &task) );
       queue->foundIrregularity = true;
 
       return CMR_OKAY;
@@ -144,6 +145,9 @@ CMR_ERROR CMRregularityDecomposeThreeSum(
 
       CMR_CALL( CMRseymourUpdateViolator(cmr, node, violatorSubmatrix) );
       assert(node->type == CMR_SEYMOUR_NODE_TYPE_IRREGULAR);
+      CMR_CALL( CMRchrmatFree(cmr, &childTransposed) );
+      CMR_CALL( CMRchrmatFree(cmr, &childMatrix) );
+      CMR_CALL( CMRregularityTaskFree(cmr, &task) );
       queue->foundIrregularity = true;
 
       return CMR_OKAY;
